@@ -377,6 +377,65 @@ Section ResumeProofs.
     eexists. split; [reflexivity|]. cbn. rewrite R1, R2, R3, R4, R5. repeat split; reflexivity.
   Qed.
 
+  (* ---------- the re-issued ticket ------------------------------------------------------------------ *)
+  (* A resumed handshake that stores a session (the offered ticket was opened with an old key, so the server
+     re-issues): the new ticket is an authentic seal under the server's first key whose state is exactly the
+     state of the offered ticket - version, suite, master secret and client certificates - and the client
+     keeps its master secret and the server identity of the old session. *)
+  Lemma reissued_ticket_same_identity : forall cfg c idx sess r s',
+    connectM cfg c idx sess = (r, Some s') -> r_cls r = Resumed ->
+    exists s st k ks,
+      sess = Some s
+      /\ decryptT (s_disabled cfg) (s_keys cfg) (cs_ticket s) = Some (st, true)
+      /\ s_keys cfg = k :: ks
+      /\ cs_ticket s' = seal mac k idx st
+      /\ st_certs (tk_state (cs_ticket s')) = st_certs (tk_state (cs_ticket s))
+      /\ st_ms (tk_state (cs_ticket s')) = st_ms (tk_state (cs_ticket s))
+      /\ cs_vers s' = st_vers st /\ cs_suite s' = st_suite st
+      /\ cs_ms s' = cs_ms s /\ cs_srv s' = cs_srv s
+      /\ r_ccert r = st_certs st /\ r_ms r = st_ms st.
+  Proof.
+    intros cfg c idx sess r s'. unfold connect. cbv zeta.
+    destruct sess as [s|].
+    2:{ cbn [option_map].
+        destruct (server_version (s_mode cfg) (hello_vers (c_kind c))) as [[gm vers]|]; [|discriminate].
+        destruct (checkR gm cfg vers (hello_suites c) None) as [[st old]|];
+        (destruct (pick_suite gm cfg vers (hello_suites c)); [|discriminate];
+         destruct (negb (newFinishedHash_prf_ok vers)); [discriminate|];
+         destruct (client_auth (s_auth cfg) (cert_id gm (c_cert c))); [|discriminate];
+         destruct (if c_cache c && negb (s_disabled cfg) then s_keys cfg else [0]); [discriminate|];
+         intros [= <- _]; discriminate). }
+    destruct (session_usable c s) eqn:Eu; cbn [option_map].
+    2:{ destruct (server_version (s_mode cfg) (hello_vers (c_kind c))) as [[gm vers]|]; [|discriminate].
+        destruct (checkR gm cfg vers (hello_suites c) None) as [[st old]|];
+        (destruct (pick_suite gm cfg vers (hello_suites c)); [|discriminate];
+         destruct (negb (newFinishedHash_prf_ok vers)); [discriminate|];
+         destruct (client_auth (s_auth cfg) (cert_id gm (c_cert c))); [|discriminate];
+         destruct (if c_cache c && negb (s_disabled cfg) then s_keys cfg else [0]); [discriminate|];
+         intros [= <- _]; discriminate). }
+    destruct (server_version (s_mode cfg) (hello_vers (c_kind c))) as [[gm vers]|]; [|discriminate].
+    destruct (checkR gm cfg vers (hello_suites c) (Some (cs_ticket s))) as [[st old]|] eqn:Echk.
+    2:{ destruct (pick_suite gm cfg vers (hello_suites c)); [|discriminate].
+        destruct (negb (newFinishedHash_prf_ok vers)); [discriminate|].
+        destruct (client_auth (s_auth cfg) (cert_id gm (c_cert c))); [|discriminate].
+        destruct (if c_cache c && negb (s_disabled cfg) then s_keys cfg else [0]); [discriminate|].
+        intros [= <- _]; discriminate. }
+    apply resume_decision in Echk. destruct Echk as (Hdis & (tk & [= <-] & Hdec) & Hv & _).
+    destruct (decrypt_authentic _ _ _ _ _ Hdec) as (_ & Hst).
+    destruct (negb (stored_certs_ok (s_auth cfg) (st_certs st))); [discriminate|].
+    destruct (negb (newFinishedHash_prf_ok vers)); [discriminate|].
+    destruct (negb (N.eqb (cs_vers s) vers && N.eqb (cs_suite s) (st_suite st))); [discriminate|].
+    destruct (negb (N.eqb (cs_ms s) (st_ms st))); [discriminate|].
+    destruct old.
+    2:{ cbn. intros [= _ C]. }
+    destruct (s_keys cfg) as [|k ks] eqn:Ek; [discriminate|].
+    intros [= <- <-] _. exists s, st, k, ks. subst vers. rewrite Hst.
+    assert (Est : mkSt (st_vers (tk_state (cs_ticket s))) (st_suite (tk_state (cs_ticket s)))
+                       (st_ms (tk_state (cs_ticket s))) (st_certs (tk_state (cs_ticket s))) = tk_state (cs_ticket s))
+      by (destruct (tk_state (cs_ticket s)); reflexivity).
+    cbn. rewrite Est. rewrite Hst in Hdec. rewrite Hdis in *. repeat split; auto.
+  Qed.
+
   (* ---------- histories: the invariant ------------------------------------------------------------ *)
   Definition state_ok (log : list crec) (st : sst) : Prop :=
     exists r, nth_error log (N.to_nat (st_ms st)) = Some r /\ r_cls r = Full
